@@ -155,8 +155,73 @@ fn resolve_entry<R: Reader<Offset = usize>>(
 ) {
     let asz = unit.encoding().address_size;
     let ur = unit.unit_ref(dwarf);
+    // entry-level accessors
+    ctx.enter("entry.accessors");
+    for name in [gimli::constants::DW_AT_name, gimli::constants::DW_AT_sibling, gimli::constants::DW_AT_location, gimli::constants::DW_AT_byte_size] {
+        let has = e.has_attr(name);
+        let by_attr = e.attr(name).map(|a| a.form());
+        ev!(ctx, "  has_attr {:?} {} {:?}", name, has, by_attr);
+        if let Some(v) = e.attr_value(name) {
+            log_attr_value(ctx, "  attr_value", &v);
+        }
+        if let Some(v) = e.attr_value_raw(name) {
+            log_attr_value(ctx, "  attr_value_raw", &v);
+        }
+    }
+    match gimli::ValueType::from_entry(e) {
+        Ok(t) => {
+            ev!(ctx, "  value_type {:?}", t);
+        }
+        Err(err) => ctx.err(&err),
+    }
     for a in e.attrs().iter().take(16) {
         let v = a.value();
+        if let Some(x) = a.exprloc_value() {
+            ctx.bytes_of("  exprloc_value", &x.0);
+        }
+        if let Some(x) = a.string_value(&dwarf.debug_str) {
+            ctx.bytes_of("  string_value", &x);
+        }
+        if let Some(x) = a.string_value_sup(&dwarf.debug_str, dwarf.sup().map(|s| &s.debug_str)) {
+            ctx.bytes_of("  string_value_sup", &x);
+        }
+        match &v {
+            AttributeValue::DebugStrRef(o) => {
+                if let Some(x) = call_q(ctx, "unit_ref.string", || ur.string(*o)) {
+                    ctx.bytes_of("  ur.string", &x);
+                }
+            }
+            AttributeValue::DebugStrRefSup(o) => {
+                if let Some(x) = call_q(ctx, "unit_ref.sup_string", || ur.sup_string(*o)) {
+                    ctx.bytes_of("  ur.sup_string", &x);
+                }
+            }
+            AttributeValue::DebugLineStrRef(o) => {
+                if let Some(x) = call_q(ctx, "unit_ref.line_string", || ur.line_string(*o)) {
+                    ctx.bytes_of("  ur.line_string", &x);
+                }
+            }
+            AttributeValue::DebugStrOffsetsIndex(i) => {
+                let _ = call(ctx, "unit_ref.string_offset", || ur.string_offset(*i));
+            }
+            AttributeValue::DebugAddrIndex(i) => {
+                let _ = call(ctx, "unit_ref.address", || ur.address(*i));
+            }
+            AttributeValue::DebugRngListsIndex(i) => {
+                let _ = call(ctx, "unit_ref.ranges_offset", || ur.ranges_offset(*i));
+            }
+            AttributeValue::DebugLocListsIndex(i) => {
+                let _ = call(ctx, "unit_ref.locations_offset", || ur.locations_offset(*i));
+            }
+            AttributeValue::RangeListsRef(o) => {
+                ctx.enter("unit_ref.ranges_offset_from_raw");
+                ev!(ctx, "  ranges_offset_from_raw {}", ur.ranges_offset_from_raw(*o).0);
+            }
+            AttributeValue::Addr(x) | AttributeValue::Udata(x) => {
+                ev!(ctx, "  tombstone? {}", unit.is_tombstone_address(*x));
+            }
+            _ => {}
+        }
         match &v {
             AttributeValue::String(_)
             | AttributeValue::DebugStrRef(_)
@@ -382,9 +447,28 @@ pub fn info<'a, R: Reader<Offset = usize> + 'a>(
                     Ok(Some(ab)) => {
                         ctx.item();
                         k += 1;
-                        let r = if (k + sel) % 2 == 0 {
+                        let r = if (k + sel) % 4 == 0 {
                             ctx.enter("raw.skip_attributes");
                             raw.skip_attributes(ab.attributes())
+                        } else if (k + sel) % 4 == 1 {
+                            ctx.enter("raw.read_attributes");
+                            let mut v = Vec::new();
+                            let r = raw.read_attributes(ab.attributes(), &mut v);
+                            ev!(ctx, "raw read_attributes n={}", v.len());
+                            r
+                        } else if (k + sel) % 4 == 2 {
+                            ctx.enter("raw.read_attribute_inline");
+                            let mut r = Ok(());
+                            for spec in ab.attributes() {
+                                match raw.read_attribute_inline(*spec) {
+                                    Ok(_) => {}
+                                    Err(e) => {
+                                        r = Err(e);
+                                        break;
+                                    }
+                                }
+                            }
+                            r
                         } else {
                             ctx.enter("raw.read_attribute");
                             let mut r = Ok(());
@@ -545,6 +629,17 @@ pub fn info<'a, R: Reader<Offset = usize> + 'a>(
         );
         if let Some(nm) = &unit.name {
             ctx.bytes_of("  name", nm);
+        }
+        ev!(ctx, "  debug_types_offset={:?} debug_info_offset={:?}", header.debug_types_offset().map(|o| o.0), header.debug_info_offset().map(|o| o.0));
+        if let Some(o) = header.debug_info_offset() {
+            if let Some(h2) = call_q(ctx, "debug_info.header_from_offset", || dwarf.debug_info.header_from_offset(o)) {
+                ev!(ctx, "  header_from_offset len={} enc={:?}", h2.unit_length(), h2.encoding());
+            }
+            let o1 = gimli::DebugInfoOffset(o.0.wrapping_add(1 + (sel as usize >> 11) % 5));
+            let _ = call(ctx, "debug_info.header_from_offset", || dwarf.debug_info.header_from_offset(o1).map(|h| h.unit_length()));
+        }
+        if let Some(u2) = call_q(ctx, "unit.new_with_abbreviations", || gimli::Unit::new_with_abbreviations(&dwarf, header.clone(), unit.abbreviations.clone())) {
+            ev!(ctx, "  new_with_abbreviations low_pc={:#x} addr_base={}", u2.low_pc, u2.addr_base.0);
         }
         if let Some(d) = &unit.comp_dir {
             ctx.bytes_of("  comp_dir", d);
